@@ -25,3 +25,11 @@ Theorem C11_reset_never_backwards :
   MRB.Conc.RAx.pos (MRB.Conc.RAx.C (MRB.Conc.RAx.exec_x len (MRB.Conc.RAx.init_x len) (s1 ++ s2))).
 Proof. exact MRB.Conc.RAxproof.consumer_never_goes_back. Qed.
 Print Assumptions C11_reset_never_backwards.
+
+(** THREE stages with reset_index / detach / sync_index / attach on the WORKER and the consumer, under concurrency (Conc/RA3x.v) *)
+Require MRB.Conc.RA3xproof.
+Theorem C11_reset_three_stages_never_backwards :
+  forall (len : nat) (s1 s2 : list (RA3.tid * RA3x.cmd)), 0 < len -> let c1 := RA3x.exec3_x len (RA3x.init3_x len) s1 in let c2 := RA3x.exec3_x len (RA3x.init3_x len) (s1 ++ s2) in RA3x.pos3 (RA3x.P3 c1) <= RA3x.pos3 (RA3x.P3 c2) /\ RA3x.pos3 (RA3x.W3 c1) <= RA3x.pos3 (RA3x.W3 c2) /\ RA3x.pos3 (RA3x.C3 c1) <= RA3x.pos3 (RA3x.C3 c2).
+Proof. exact RA3xproof.never_goes_back_3x. Qed.
+Print Assumptions C11_reset_three_stages_never_backwards.
+
